@@ -529,6 +529,11 @@ class SigmaTimestampModifier(SigmaValueModifier[SigmaNumber, SigmaTimestampPart]
     time_part_unit: ClassVar[TimestampPart]
 
     def modify(self, val: SigmaNumber) -> SigmaTimestampPart:
+        if int(val.number) != val.number:  # silently cutting 5.7 down to 5 would change the rule
+            raise SigmaTypeError(
+                f"Timestamp part modifier '{self.time_part_unit.name.lower()}' requires a whole number",
+                source=self.source,
+            )
         return SigmaTimestampPart(self.time_part_unit, int(val.number))
 
 
